@@ -146,7 +146,7 @@ func (limitsEngine) Gen(r *Rand, tier string) any {
 		c.Caught = r.Bool()
 		c.Knobs.TRO = PickStr(r, []string{"", "debugger", "profiler"})
 		c.Forms = structProgram(r, "phys", c.Depth, c.Caught)
-		c.MaxLim = c.Depth*2 + 12
+		c.MaxLim = c.Depth*5 + 14
 	case 2:
 		c.Mode = "nest"
 		c.Depth = r.Range(1, 14)
@@ -183,9 +183,32 @@ func structProgram(r *Rand, kind string, depth int, caught bool) []*Node {
 	var call *Node
 	switch kind {
 	case "phys":
+		// each recursion level pushes a seeded mix of frame kinds (function,
+		// special operator, Go-implemented macro, lisp macro that calls
+		// nothing), so sweeping the limit lands the refused push on every kind
+		rec := Call("rr", Call("-", A("n"), I(1)))
+		defs = append(defs, L(A("defmacro"), A("idm"), L(A("x")), A("x")))
+		for i := r.Range(0, 2); i > 0; i-- {
+			switch r.Intn(7) {
+			case 0:
+				rec = Call("get-default", Call("sorted-map"), A(":missing"), rec)
+			case 1:
+				rec = Call("idm", rec)
+			case 2:
+				rec = L(A("let"), L(L(A("q"), rec)), A("q"))
+			case 3:
+				rec = Call("progn", rec)
+			case 4:
+				rec = Call("funcall", L(A("lambda"), L(), rec))
+			case 5:
+				rec = Call("car", Call("list", rec))
+			default:
+				rec = Call("thread-first", rec, L(A("+"), I(0)))
+			}
+		}
 		defs = append(defs, L(A("defun"), A("rr"), L(A("n")),
 			Call("if", Call("<=", A("n"), I(0)), Call("sim:probe", QS("deep"), I(0)),
-				Call("+", I(1), Call("rr", Call("-", A("n"), I(1)))))))
+				Call("+", I(1), rec))))
 		call = Call("rr", I(depth))
 	case "nest":
 		cur := Call("sim:probe", QS("deep"), I(0))
